@@ -104,7 +104,7 @@ def function_level(ctx):
 
     rng = ctx.rng
     n = 1500 if ctx.thorough else 320
-    tails, renders = [], []
+    tails, renders, render_errors = [], [], []
     dist = {"partial": 0, "whole": 0, "empty": 0, "ends_crlf": 0}
     orig_flatten = G.ASBytesGenerator.flatten
     try:
@@ -124,11 +124,20 @@ def function_level(ctx):
                 self._fp.write(_d)
 
             G.ASBytesGenerator.flatten = fake
-            rb = G.msg_as_bytes(None)
-            sz = G.get_msg_size(None)
-            renders.append((d, rb, sz))
+            try:
+                rb = G.msg_as_bytes(None)
+                sz = G.get_msg_size(None)
+                renders.append((d, rb, sz))
+            except Exception as e:  # the functions no longer are "flatten, then terminate, then measure"
+                render_errors.append(repr(e)[:200])
+            finally:
+                G.ASBytesGenerator.flatten = orig_flatten
     finally:
         G.ASBytesGenerator.flatten = orig_flatten
+    if render_errors:
+        ctx.proof_broken.append({"what": "tie: msg_as_bytes/get_msg_size are no longer a termination step over one "
+                                         "ASBytesGenerator.flatten (the function-level comparison could not run)",
+                                 "errors": render_errors[:3]})
     # the parser: RFC822* desugaring and <o.n>
     desugar = []
     sect_code = {(): 0, ("header",): 1, ("text",): 2}
